@@ -119,6 +119,7 @@ func loadProgram(repo string, goarch string, overlay map[string][]byte) *Program
 			}
 		}
 	}
+	resolveAliases(p.Funcs, p.Main.Types)
 	sort.Slice(p.Funcs, func(i, j int) bool { return funcKey(p.Funcs[i]) < funcKey(p.Funcs[j]) })
 	for _, f := range p.Funcs {
 		p.byKey[funcKey(f)] = f
@@ -137,6 +138,9 @@ func funcKey(f *ssa.Function) string {
 	}
 	if f.Parent() != nil {
 		return funcKey(f.Parent()) + "$" + strings.TrimPrefix(f.Name(), f.Parent().Name()+"$")
+	}
+	if a, ok := funcAlias[f]; ok {
+		return a // renamed since the reference tree: known to the rules under its reference name
 	}
 	if recv := f.Signature.Recv(); recv != nil {
 		return "(" + types.TypeString(recv.Type(), func(p *types.Package) string {
